@@ -144,7 +144,16 @@ func verifHarness_C20_basicAuthRaw() {
 	if verifChoice("usernamePreset", 2) == 1 {
 		r.Use(func(c *rux.Context) { c.Set("username", "someone-else") })
 	}
-	r.GET("/x", func(c *rux.Context) { ranMain = true; sawUser, _ = c.Get("username") }, gate)
+	r.Any("/x", func(c *rux.Context) { ranMain = true; sawUser, _ = c.Get("username") }, gate)
+	// the gate does not depend on the request method or on other headers (a CORS preflight included)
+	switch verifChoice("requestKind", 3) {
+	case 1:
+		req.Method = "OPTIONS"
+		req.Header.Set("Access-Control-Request-Method", "DELETE")
+		req.Header.Set("Origin", "https://example.org")
+	case 2:
+		req.Method = "DELETE"
+	}
 	rec := verifNewWriter()
 	k := verifCatch(func() { r.ServeHTTP(rec, req) })
 	verifAssert(k == "", "no Authorization header makes the gate panic")
